@@ -242,8 +242,30 @@ def rotate(items, rnd):
 # ------------------------------------------------------------------ C01 / C02 / C03
 
 
+def small_exhaustive(b, rnd, tier, kinds, huff):
+    """every sequence up to a small length over a small alphabet, with complete query grids:
+    the same space the Level-1 wavelet-matrix models cover, replayed on the real trees"""
+    maxlen, alph = (3, [0, 1, 2, 3, 4]) if tier == "quick" else (4, [0, 1, 2, 3, 4, 5])
+    kk = rotate(kinds, rnd)
+    tt = rotate(UTYPES, rnd)
+    for L in range(0, maxlen + 1):
+        for vals in itertools.product(alph, repeat=L):
+            s = Seqn.from_values(list(vals))
+            b.reset()
+            ty = next(tt)
+            o = b.newt(next(kk), ty, rnd.choice(["new", "from_vec", "collect"]), s,
+                       tie=(rnd.choice([None, {"mode": "asc"}, {"mode": "desc"}, {"mode": "seed", "seed": rnd.randrange(1 << 20)}]) if huff else None))
+            pos = list(range(0, L + 2)) + [-1]
+            cs = [sym(c) for c in range(0, max(alph) + 3)]
+            b.meta(o)
+            b.qg(o, "get", [], pos)
+            b.qg(o, "rank", cs, pos)
+            b.qg(o, "select", cs, list(range(0, L + 2)) + [-1])
+
+
 def camp_tree_plain(rnd, tier, kinds=QUAD_PLAIN):
     b = Beh()
+    small_exhaustive(b, rnd, tier, kinds, False)
     types = UTYPES if tier == "thorough" else rnd.sample(UTYPES, 3) + ["u128"]
     paths = rotate(["new", "from_vec", "collect"], rnd)
     kk = rotate(kinds, rnd)
@@ -272,6 +294,7 @@ def tie_modes(rnd, tier, used):
 
 def camp_tree_huff(rnd, tier, kinds=QUAD_HUFF, binary=False):
     b = Beh()
+    small_exhaustive(b, rnd, tier, kinds, True)
     types = UTYPES if tier == "thorough" else rnd.sample(UTYPES, 2) + ["u8"]
     paths = rotate(["new", "from_vec", "collect"], rnd)
     kk = rotate(kinds, rnd)
